@@ -23,12 +23,27 @@ def _worker(job):
     from pyvc.run import run_instance
 
     logging.disable(logging.CRITICAL)
+    import signal
+
+    class _InstanceTimeout(Exception):
+        pass
+
+    def _alarm(signum, frame):
+        raise _InstanceTimeout()
+
+    limit = int(os.environ.get("PYVC_INSTANCE_TIMEOUT_S", "600"))
+    signal.signal(signal.SIGALRM, _alarm)
+    signal.alarm(limit)
     try:
         return run_instance(cid, idx, tier, seed=seed, prop=prop, native_trials=trials)
+    except _InstanceTimeout:
+        return {"cid": cid, "instance": str(idx), "obligations": [], "trusted": [], "undecided": [{"obligation": f"{cid}[instance {idx}]", "reason": f"contract instance exceeded {limit} s"}], "violations": [], "checker_errors": [], "paths": 0, "solver_s": 0.0, "wall_s": float(limit), "scope": "?", "target": cid, "native_trials": 0, "covered": []}
     except Exception:  # noqa: BLE001
         import traceback
 
         return {"cid": cid, "instance": str(idx), "obligations": [], "trusted": [], "undecided": [], "violations": [], "checker_errors": [{"where": cid, "trace": traceback.format_exc(limit=10)}], "paths": 0, "solver_s": 0.0, "wall_s": 0.0, "scope": "?", "target": cid, "native_trials": 0, "covered": []}
+    finally:
+        signal.alarm(0)
 
 
 def load_known():
